@@ -551,3 +551,94 @@ func c04Smallest(modes []c04Mode) func(x *X) {
 func init() {
 	register(&Scenario{Prop: "C04", Name: "c04/smallest-requests", Quick: []Bound{{0, 0}, {1, 0}}, Thorough: []Bound{{2, 0}}, Body: c04Smallest(c04Modes()), BudgetQ: 15})
 }
+
+// request bodies the server's body codec cannot decode into the handler's parameter (a number
+// that does not fit the field, a value of the wrong type, truncated or empty text - what a client
+// built against another version of the message sends): no handler runs for them and the caller gets
+// an error; bodies that do decode run the handler once with exactly the decoded values.  The client
+// side uses the BYTES codec, so the request body is exactly the text below; every handler shape.
+type Calc struct {
+	runs []string
+}
+
+func (c *Calc) Mul(req *Req, res *Res) error {
+	c.runs = append(c.runs, fmt.Sprintf("Mul(%d,%d)", req.A, req.B))
+	res.Pro = req.A * req.B
+	return nil
+}
+
+func (c *Calc) MulCtx(ctx context.Context, req *Req, res *Res) error {
+	c.runs = append(c.runs, fmt.Sprintf("MulCtx(%d,%d)", req.A, req.B))
+	res.Pro = req.A * req.B
+	return nil
+}
+
+func (c *Calc) MulOut(req *Req) (*Res, error) {
+	c.runs = append(c.runs, fmt.Sprintf("MulOut(%d,%d)", req.A, req.B))
+	return &Res{Pro: req.A * req.B}, nil
+}
+
+var c04Bodies = []string{
+	`{"A":3,"B":4}`, `{"A":1099511627776,"B":2}`, `{"A":"twelve","B":2}`, `{"A":6,"B":7`, ``, `[1,2]`, `{"A":5,"B":5}`, `{"A":2,"B":3.5}`, `"x"`, `{"A":-4,"B":2,"C":9}`, `{"A":7,"B":true}`, `{"A":9,"B":9}`,
+}
+
+func c04Undecodable(x *X) {
+	shape := []string{"Mul", "MulCtx", "MulOut"}[x.Choose(3)]
+	mode := x.Choose(4)
+	rot := x.Choose(len(c04Bodies))
+	so := srvOpts{bufSize: 64, codec: func() rpc.Codec { return rpc.NewJSONCodec() }}
+	switch mode {
+	case 1:
+		so.pipelining = true
+	case 2:
+		so.directIO = true
+	case 3:
+		so.shared = true
+	}
+	w := newWorld()
+	calc := &Calc{}
+	srv := newServer(w, so)
+	srv.Register(calc)
+	cl, sv := NewPipe()
+	serveCodec(srv, sv, so)
+	conn := newConn(cl, "", 64, nil) // BYTES on the client side: the body is the text itself
+	out := ""
+	for i := range c04Bodies {
+		body := c04Bodies[(i+rot)%len(c04Bodies)]
+		var ref Req
+		decodes := rpc.NewJSONCodec().Unmarshal([]byte(body), &ref) == nil
+		args := []byte(body)
+		var reply []byte
+		before := len(calc.runs)
+		var err error
+		returned := false
+		vs.GoNamed(fmt.Sprintf("caller%d", i), func() {
+			err = conn.Call("Calc."+shape, &args, &reply)
+			returned = true
+		})
+		vs.Quiesce()
+		ran := calc.runs[before:]
+		switch {
+		case !returned:
+			x.Fail("C04/call-hangs/undecodable", "the call with the body %q did not return", body)
+		case !decodes && len(ran) > 0:
+			x.Fail("C04/handler-ran-for-undecodable-request", "the request body %q cannot be decoded into the handler's parameter, and handler %v ran (shape %s, mode %d); the caller got err=%v reply=%q", body, ran, shape, mode, err, reply)
+		case !decodes && err == nil:
+			x.Fail("C04/undecodable-request-succeeds", "the request body %q cannot be decoded and the call returned nil with the reply %q", body, reply)
+		case decodes && len(ran) != 1:
+			x.Fail(fmt.Sprintf("C04/executions=%d/decodable-among-undecodable", len(ran)), "the request body %q ran %v", body, ran)
+		case decodes && ran[0] != fmt.Sprintf("%s(%d,%d)", shape, ref.A, ref.B):
+			x.Fail("C04/arguments-differ/decodable-among-undecodable", "the request body %q ran %s", body, ran[0])
+		case decodes && (err != nil || string(reply) != fmt.Sprintf(`{"Pro":%d}`, ref.A*ref.B)):
+			x.Fail("C04/reply-differs/decodable-among-undecodable", "the request body %q: err=%v reply=%q", body, err, reply)
+		}
+		out += fmt.Sprintf(" %v/%d/%v", decodes, len(ran), err == nil)
+	}
+	x.Outcome("%s mode=%d rot=%d%s", shape, mode, rot, out)
+	conn.Close()
+	vs.Quiesce()
+}
+
+func init() {
+	register(&Scenario{Prop: "C04", Name: "c04/undecodable-requests", Quick: []Bound{{0, 0}}, Thorough: []Bound{{1, 0}}, Body: c04Undecodable, BudgetQ: 15, BudgetT: 100, MinHB: 1})
+}
